@@ -181,10 +181,15 @@ def audit(props: list[str], tag: str) -> dict:
         src = strip_comments(open(module_path(m)).read())
         for mm in FORBIDDEN_RE.finditer(src):
             res["forbidden"].append(f"{m}: {mm.group(0).strip()}")
+    # every theorem of every Props module the property modules import (lemma files included)
     thms = []
-    for p in props:
-        thms += theorem_names(p)
+    audited_mods = [m for m in imports_closure(props) if m.startswith("Ptk.Props.")]
+    for p in list(props) + sorted(m for m in audited_mods if m not in props):
+        for t in theorem_names(p):
+            if t not in thms:
+                thms.append(t)
     res["theorems"] = thms
+    res["audited_modules"] = list(props) + sorted(m for m in audited_mods if m not in props)
     if not thms:
         res["ok"] = False
         res["forbidden"].append("no theorems found")
@@ -193,6 +198,7 @@ def audit(props: list[str], tag: str) -> dict:
     h = hashlib.sha256()
     for m in sorted(imports_closure(props)):
         h.update(open(module_path(m), "rb").read())
+    h.update("\n".join(thms).encode())
     key = h.hexdigest()[:24]
     cache = os.path.join(WORK, f"audit_{tag}_{key}.txt")
     if os.path.exists(cache):
@@ -200,7 +206,7 @@ def audit(props: list[str], tag: str) -> dict:
     else:
         f = os.path.join(WORK, f"audit_{tag}_{os.getpid()}.lean")
         with open(f, "w") as fh:
-            for p in props:
+            for p in res["audited_modules"]:
                 fh.write(f"import {p}\n")
             for t in thms:
                 fh.write(f"#print axioms {t}\n")
@@ -577,6 +583,7 @@ def main(plugin) -> int:
             "trusted_base": ["Lean 4.33.0 kernel", "axioms: " + (", ".join(axioms_used) or "none")]
                             + list(getattr(plugin, "TRUSTED", [])),
             "theorems": aud["theorems"],
+            "audited_modules": aud.get("audited_modules", []),
             "axioms_per_theorem": aud["axioms"],
             "proofs_checked": bool(ok_props and aud["ok"]),
             "broken_obligations": broken,
